@@ -448,3 +448,137 @@ theorem fieldI_weight (v : Nat) (h : Rat) (hh : eps < absR h) (ins outs : List B
     simp [longitudinalHamiltonian, fieldMatShifted, Interaction.indexFromBits, getP]
 
 end Qmc
+
+/-! ### bond lookup and equality of the Hamiltonians -/
+
+namespace Qmc
+open GenericSampler
+
+theorem convertBonds_eq (m : IsingModel) :
+    convertBonds m = m.edges.map (fun e => edgeI e.1 e.2) ++
+      (List.range m.nvars).map (fun v => transI v m.transverse) ++
+      (if m.hasField then (List.range m.nvars).map (fun v => fieldI v m.longitudinal) else []) := by
+  unfold convertBonds convertList edgeEntries transEntries fieldEntries
+  split_ifs <;> simp [List.map_append, List.map_map, Function.comp_def]
+
+theorem convertBonds_length (m : IsingModel) : (convertBonds m).length = m.numBonds := by
+  rw [convertBonds_eq]; unfold IsingModel.numBonds
+  split_ifs <;> simp
+  omega
+
+theorem convertBonds_get_edge (m : IsingModel) (b : Nat) (hb : b < m.edges.length) :
+    (convertBonds m)[b]? = some (edgeI (m.edges[b]).1 (m.edges[b]).2) := by
+  rw [convertBonds_eq, List.append_assoc, List.getElem?_append_left (by simpa using hb)]
+  simp [hb]
+
+theorem convertBonds_get_trans (m : IsingModel) (b : Nat) (h1 : m.edges.length ≤ b)
+    (h2 : b < m.edges.length + m.nvars) :
+    (convertBonds m)[b]? = some (transI (b - m.edges.length) m.transverse) := by
+  rw [convertBonds_eq, List.append_assoc, List.getElem?_append_right (by simpa using h1)]
+  rw [List.getElem?_append_left (by simp; omega)]
+  rw [List.getElem?_map, List.getElem?_range (by simp; omega)]
+  simp
+
+theorem convertBonds_get_field (m : IsingModel) (b : Nat) (hf : m.hasField = true)
+    (h1 : m.edges.length + m.nvars ≤ b) (h2 : b < m.edges.length + 2 * m.nvars) :
+    (convertBonds m)[b]? = some (fieldI (b - m.edges.length - m.nvars) m.longitudinal) := by
+  rw [convertBonds_eq, if_pos hf, List.getElem?_append_right (by simp; omega)]
+  rw [List.getElem?_map, List.getElem?_range (by simp; omega)]
+  simp only [List.length_append, List.length_map, List.length_range, Option.map_some]
+  congr 2; omega
+
+theorem convertBonds_get_none (m : IsingModel) (b : Nat) (h : m.numBonds ≤ b) :
+    (convertBonds m)[b]? = none := by
+  rw [List.getElem?_eq_none_iff, convertBonds_length]; exact h
+
+theorem numBonds_cases (m : IsingModel) (b : Nat) :
+    (b < m.edges.length) ∨ (m.edges.length ≤ b ∧ b < m.edges.length + m.nvars) ∨
+    (m.hasField = true ∧ m.edges.length + m.nvars ≤ b ∧ b < m.edges.length + 2 * m.nvars ∧ b < m.numBonds) ∨
+    (m.numBonds ≤ b ∧ m.edges.length + m.nvars ≤ b) := by
+  unfold IsingModel.numBonds
+  by_cases hf : m.hasField = true
+  · simp only [hf, if_true, true_and]; omega
+  · simp only [hf]; simp only [Bool.false_eq_true, if_false, false_and, false_or]; omega
+
+/-- bond by bond, pattern by pattern, the converted sampler's weight is the Ising sampler's -/
+theorem convert_w (m : IsingModel) (hm : ∀ e ∈ m.edges, e.1.length = 2) (b : Nat)
+    (ins outs : List Bool) :
+    (genericHam (convertBonds m)).w b ins outs = (isingHam m).w b ins outs := by
+  simp only [genericHam, isingHam]
+  rcases numBonds_cases m b with h | ⟨h1, h2⟩ | ⟨hf, h1, h2, h3⟩ | ⟨h, h'⟩
+  · have hnb : b < m.numBonds := by unfold IsingModel.numBonds; omega
+    rw [convertBonds_get_edge m b h, if_pos hnb]
+    simp only [Option.map_some, Option.getD_some]
+    rw [edgeI_weight _ (hm _ (List.getElem_mem h))]
+    unfold IsingModel.hamiltonian
+    rw [if_pos h, List.getElem?_eq_getElem h]
+    rfl
+  · have hnb : b < m.numBonds := by unfold IsingModel.numBonds; omega
+    rw [convertBonds_get_trans m b h1 h2, if_pos hnb]
+    simp only [Option.map_some, Option.getD_some]
+    rw [transI_weight]
+    unfold IsingModel.hamiltonian
+    rw [if_neg (by omega), if_pos h2]
+    rfl
+  · rw [convertBonds_get_field m b hf h1 h2, if_pos h3]
+    simp only [Option.map_some, Option.getD_some]
+    rw [fieldI_weight _ _ ((hasField_iff m).mp hf)]
+    unfold IsingModel.hamiltonian
+    rw [if_neg (by omega), if_neg (by omega), if_pos h2]
+    rfl
+  · rw [convertBonds_get_none m b h, if_neg (by omega)]
+    rfl
+
+theorem convert_vars (m : IsingModel) (b : Nat) :
+    (genericHam (convertBonds m)).vars b = (isingHam m).vars b := by
+  simp only [genericHam, isingHam]
+  rcases numBonds_cases m b with h | ⟨h1, h2⟩ | ⟨hf, h1, h2, h3⟩ | ⟨h, h'⟩
+  · have hnb : b < m.numBonds := by unfold IsingModel.numBonds; omega
+    rw [convertBonds_get_edge m b h, if_pos hnb]
+    simp [IsingModel.bondVars, h, edgeI, newDiagonalResult]
+  · have hnb : b < m.numBonds := by unfold IsingModel.numBonds; omega
+    rw [convertBonds_get_trans m b h1 h2, if_pos hnb]
+    simp only [IsingModel.bondVars, if_neg (show ¬ b < m.edges.length by omega), if_pos h2]
+    simp [transI, newResult]
+  · rw [convertBonds_get_field m b hf h1 h2, if_pos h3]
+    simp only [IsingModel.bondVars, if_neg (show ¬ b < m.edges.length by omega),
+      if_neg (show ¬ b < m.edges.length + m.nvars by omega)]
+    simp [fieldI, newResult]; omega
+  · rw [convertBonds_get_none m b h, if_neg (by omega)]
+    rfl
+
+theorem convert_const (m : IsingModel) (b : Nat) :
+    (genericHam (convertBonds m)).const b = (isingHam m).const b := by
+  simp only [genericHam, isingHam]
+  rcases numBonds_cases m b with h | ⟨h1, h2⟩ | ⟨hf, h1, h2, h3⟩ | ⟨h, h'⟩
+  · have hnb : b < m.numBonds := by unfold IsingModel.numBonds; omega
+    rw [convertBonds_get_edge m b h, if_pos hnb]
+    simp only [Option.map_some, Option.getD_some, edgeI_not_constant, IsingModel.bondConst]
+    symm; rw [decide_eq_false_iff_not]; omega
+  · have hnb : b < m.numBonds := by unfold IsingModel.numBonds; omega
+    rw [convertBonds_get_trans m b h1 h2, if_pos hnb]
+    simp only [Option.map_some, Option.getD_some, transI_constant, IsingModel.bondConst]
+    symm; rw [decide_eq_true_iff]; omega
+  · rw [convertBonds_get_field m b hf h1 h2, if_pos h3]
+    simp only [Option.map_some, Option.getD_some, IsingModel.bondConst,
+      fieldI_not_constant _ _ ((hasField_iff m).mp hf)]
+    symm; rw [decide_eq_false_iff_not]; omega
+  · rw [convertBonds_get_none m b h, if_neg (by omega)]
+    rfl
+
+/-- the two samplers hand *the same* Hamiltonian to the shared update routines -/
+theorem convert_ham_eq (m : IsingModel) (hm : ∀ e ∈ m.edges, e.1.length = 2) :
+    genericHam (convertBonds m) = isingHam m := by
+  have h1 : (genericHam (convertBonds m)).nbonds = (isingHam m).nbonds := by
+    simp [genericHam, isingHam, convertBonds_length]
+  have h2 : (genericHam (convertBonds m)).vars = (isingHam m).vars := funext (convert_vars m)
+  have h3 : (genericHam (convertBonds m)).const = (isingHam m).const := funext (convert_const m)
+  have h4 : (genericHam (convertBonds m)).w = (isingHam m).w :=
+    funext fun b => funext fun i => funext fun o => convert_w m hm b i o
+  cases hg : genericHam (convertBonds m)
+  cases hi : isingHam m
+  rw [hg] at h1 h2 h3 h4; rw [hi] at h1 h2 h3 h4
+  simp only at h1 h2 h3 h4
+  rw [h1, h2, h3, h4]
+
+end Qmc
